@@ -45,6 +45,7 @@ const (
 	OpIte // args[0] Bool
 	OpSelect
 	OpUF
+	OpBXor // n-ary Boolean xor
 )
 
 var opNames = map[Op]string{
@@ -52,7 +53,7 @@ var opNames = map[Op]string{
 	OpSDiv: "bvsdiv", OpSRem: "bvsrem", OpAnd: "bvand", OpOr: "bvor", OpXor: "bvxor",
 	OpShl: "bvshl", OpLShr: "bvlshr", OpAShr: "bvashr", OpNot: "bvnot", OpNeg: "bvneg",
 	OpConcat: "concat", OpEq: "=", OpULt: "bvult", OpULe: "bvule", OpSLt: "bvslt", OpSLe: "bvsle",
-	OpBAnd: "and", OpBOr: "or", OpBNot: "not", OpIte: "ite",
+	OpBAnd: "and", OpBOr: "or", OpBNot: "not", OpIte: "ite", OpBXor: "xor",
 }
 
 // Term is an immutable, hash-consed node. W is the bit width; 0 means Bool.
@@ -69,6 +70,12 @@ type Term struct {
 	multi bool  // support has more than one variable
 	size  int   // number of nodes (tree size, saturating)
 	hasUF uint8 // 0 unknown, 1 yes, 2 no
+	bits  []bexpr // bit-level affine normal form (banf.go), nil if none
+	canon bool
+	tabDone bool
+	rep     *Term // canonical representative (BANF), if different from the term itself
+	bitsTried bool
+	tabRes  *Term
 }
 
 type Table struct {
@@ -77,6 +84,9 @@ type Table struct {
 	ElemW int
 	Vals  []uint64
 	key   string
+	affDone, affine bool
+	aff0    uint64
+	affLin  []uint64
 }
 
 type TermStore struct {
@@ -91,6 +101,8 @@ type TermStore struct {
 	// UF signatures: name -> (arg widths, result width)
 	UFs map[string][]int
 	NoTabulate bool
+	NoBANF     bool
+	banfTab    map[uint64][]*Term
 }
 
 func NewTermStore() *TermStore {
@@ -101,6 +113,29 @@ func NewTermStore() *TermStore {
 }
 
 func (s *TermStore) mk(op Op, w int, k uint64, name string, args ...*Term) *Term {
+	t := s.mkRaw(op, w, k, name, args...)
+	if t.tabDone {
+		if t.tabRes != nil {
+			return t.tabRes
+		}
+		return t
+	}
+	t.tabDone = true
+	if t.W > 0 && t.Op != OpSelect {
+		// terms with a bit-level affine form keep their structure (banf.go);
+		// only genuinely non-linear single-variable functions become tables
+		if bs := s.bitsOfNew(t); bs != nil {
+			return t
+		}
+	}
+	if r := s.tabulate(t); r != nil {
+		t.tabRes = r
+		return r
+	}
+	return t
+}
+
+func (s *TermStore) mkRaw(op Op, w int, k uint64, name string, args ...*Term) *Term {
 	var sb strings.Builder
 	fmt.Fprintf(&sb, "%d:%d:%d:%s", op, w, k, name)
 	for _, a := range args {
@@ -143,10 +178,6 @@ func (s *TermStore) mk(op Op, w int, k uint64, name string, args ...*Term) *Term
 	}
 	s.tab[key] = t
 	s.all = append(s.all, t)
-	if r := s.tabulate(t); r != nil {
-		s.tab[key] = r
-		return r
-	}
 	return t
 }
 
@@ -326,7 +357,7 @@ func (s *TermStore) Bin(op Op, a, b *Term) *Term {
 	if isCommutative(op) && a.IsConst() {
 		a, b = b, a
 	}
-	if b.IsConst() && a.Op == OpSelect {
+	if b.IsConst() && a.Op == OpSelect && (s.NoBANF || !(op == OpAnd || op == OpOr || op == OpXor || op == OpShl || op == OpLShr || op == OpAShr)) {
 		bk := b.K
 		return s.mapTable(a, w, func(v uint64) uint64 { r, _ := foldBin(op, w, v, bk); return r })
 	}
@@ -387,7 +418,7 @@ func (s *TermStore) Bin(op Op, a, b *Term) *Term {
 	if isCommutative(op) && !b.IsConst() && a.ID > b.ID {
 		a, b = b, a
 	}
-	return s.mk(op, w, 0, "", a, b)
+	return s.finish(s.mk(op, w, 0, "", a, b))
 }
 
 func (s *TermStore) Not(a *Term) *Term {
@@ -397,7 +428,7 @@ func (s *TermStore) Not(a *Term) *Term {
 	if a.Op == OpNot {
 		return a.Args[0]
 	}
-	return s.mk(OpNot, a.W, 0, "", a)
+	return s.finish(s.mk(OpNot, a.W, 0, "", a))
 }
 
 func (s *TermStore) Neg(a *Term) *Term {
@@ -420,7 +451,9 @@ func (s *TermStore) Extract(a *Term, hi, lo int) *Term {
 	}
 	switch a.Op {
 	case OpSelect:
-		return s.mapTable(a, w, func(v uint64) uint64 { return v >> uint(lo) })
+		if s.NoBANF {
+			return s.mapTable(a, w, func(v uint64) uint64 { return v >> uint(lo) })
+		}
 	case OpZExt, OpSExt:
 		x := a.Args[0]
 		if hi < x.W {
@@ -471,7 +504,7 @@ func (s *TermStore) Extract(a *Term, hi, lo int) *Term {
 			}
 		}
 	}
-	return s.mk(OpExtract, w, uint64(hi)<<8|uint64(lo), "", a)
+	return s.finish(s.mk(OpExtract, w, uint64(hi)<<8|uint64(lo), "", a))
 }
 
 func (s *TermStore) Concat(hi, lo *Term) *Term {
@@ -485,7 +518,7 @@ func (s *TermStore) Concat(hi, lo *Term) *Term {
 	if hi.IsConst() && hi.K == 0 {
 		return s.ZExt(lo, w)
 	}
-	return s.mk(OpConcat, w, 0, "", hi, lo)
+	return s.finish(s.mk(OpConcat, w, 0, "", hi, lo))
 }
 
 func (s *TermStore) ZExt(a *Term, w int) *Term {
@@ -501,13 +534,13 @@ func (s *TermStore) ZExt(a *Term, w int) *Term {
 	if a.Op == OpZExt {
 		return s.ZExt(a.Args[0], w)
 	}
-	if a.Op == OpSelect && w <= 64 {
+	if a.Op == OpSelect && w <= 64 && s.NoBANF {
 		return s.mapTable(a, w, func(v uint64) uint64 { return v })
 	}
 	if a.Op == OpIte && (a.Args[1].IsConst() && a.Args[2].IsConst()) {
 		return s.Ite(a.Args[0], s.ZExt(a.Args[1], w), s.ZExt(a.Args[2], w))
 	}
-	return s.mk(OpZExt, w, 0, "", a)
+	return s.finish(s.mk(OpZExt, w, 0, "", a))
 }
 
 func (s *TermStore) SExt(a *Term, w int) *Term {
@@ -523,16 +556,25 @@ func (s *TermStore) SExt(a *Term, w int) *Term {
 	if a.Op == OpZExt {
 		return s.ZExt(a.Args[0], w) // top bit of a is zero
 	}
-	if a.Op == OpSelect {
+	if a.Op == OpSelect && s.NoBANF {
 		aw := a.W
 		return s.mapTable(a, w, func(v uint64) uint64 { return uint64(signExt(v, aw)) })
 	}
-	return s.mk(OpSExt, w, 0, "", a)
+	return s.finish(s.mk(OpSExt, w, 0, "", a))
 }
 
 // range of an unsigned term: a cheap upper bound (for deciding comparisons
 // syntactically). Returns max value.
 func (s *TermStore) umax(a *Term) uint64 {
+	if a.bits != nil {
+		var m uint64
+		for j, b := range a.bits {
+			if !b.isConst() || b.c {
+				m |= 1 << uint(j)
+			}
+		}
+		return m
+	}
 	switch a.Op {
 	case OpConst:
 		return a.K
@@ -724,6 +766,11 @@ func (s *TermStore) Cmp(op Op, a, b *Term) *Term {
 			}
 		}
 	}
+	if op == OpEq && a.W > 0 {
+		if r, ok := s.parityEq(a, b); ok {
+			return r
+		}
+	}
 	if op == OpEq && a.ID > b.ID && !b.IsConst() {
 		a, b = b, a
 	}
@@ -851,7 +898,7 @@ func (s *TermStore) Ite(c, a, b *Term) *Term {
 	if c.Op == OpBNot {
 		return s.Ite(c.Args[0], b, a)
 	}
-	return s.mk(OpIte, a.W, 0, "", c, a, b)
+	return s.finish(s.mk(OpIte, a.W, 0, "", c, a, b))
 }
 
 // NewTable registers (or finds) a constant lookup table.
@@ -930,7 +977,54 @@ func (s *TermStore) Select(t *Table, idx *Term) *Term {
 	if allSame {
 		return s.Const(t.ElemW, t.Vals[0])
 	}
-	return s.mk(OpSelect, t.ElemW, uint64(t.ID), "", idx)
+	if !s.NoBANF && t.ElemW <= 64 && s.affineTable(t) {
+		// a bit-affine table (shifts, masks, xor with constants, ...) keeps its
+		// structure instead of becoming an opaque lookup
+		bs := s.selectBits(t, idx)
+		if r := s.fromBits(bs); r != nil {
+			return r
+		}
+		r := s.mkRaw(OpSelect, t.ElemW, uint64(t.ID), "", idx)
+		if r.bits == nil {
+			key := banfKey(bs)
+			for _, o := range s.banfTab[key] {
+				if o.W == r.W && sameBits(o.bits, bs) {
+					return o
+				}
+			}
+			r.bits = bs
+			r.canon = true
+			if s.banfTab == nil {
+				s.banfTab = map[uint64][]*Term{}
+			}
+			s.banfTab[key] = append(s.banfTab[key], r)
+		}
+		return r
+	}
+	r := s.mk(OpSelect, t.ElemW, uint64(t.ID), "", idx)
+	if !s.NoBANF && r.Op == OpSelect && r.bits == nil && t.ElemW <= 64 && !r.bitsTried {
+		// bits that are the same in every entry are constants of the affine form
+		r.bitsTried = true
+		or, and := uint64(0), ^uint64(0)
+		for _, v := range t.Vals {
+			or |= v
+			and &= v
+		}
+		constMask := ^(or ^ and) & mask(t.ElemW) // bits equal in all entries
+		if constMask != 0 {
+			bs := make([]bexpr, t.ElemW)
+			for j := range bs {
+				if constMask>>uint(j)&1 == 1 {
+					bs[j] = bexpr{c: and>>uint(j)&1 == 1}
+				} else {
+					bs[j] = bexpr{s: []uint64{uint64(r.ID)<<6 | uint64(j)}}
+				}
+			}
+			r.bits = bs
+			r.canon = true
+		}
+	}
+	return r
 }
 
 // mapTable applies f to every entry of the table selected by sel.
@@ -1077,6 +1171,11 @@ func (s *TermStore) EvalLeaf(t *Term, env map[string]uint64, ufEval func(name st
 					break
 				}
 			}
+		case OpBXor:
+			r = 0
+			for _, a := range t.Args {
+				r ^= ev(a)
+			}
 		case OpBNot:
 			r = 1 - ev(t.Args[0])
 		case OpIte:
@@ -1164,7 +1263,7 @@ func (t *Term) String() string {
 			sb.WriteString(t.Name)
 			return
 		}
-		if d > 6 {
+		if d > strDepth {
 			fmt.Fprintf(&sb, "t%d", t.ID)
 			return
 		}
@@ -1192,3 +1291,5 @@ func (t *Term) String() string {
 	pr(t, 0)
 	return sb.String()
 }
+
+var strDepth = 6
